@@ -14,12 +14,19 @@ TEXT = ("PARTIAL. Decided here, on small integer samples (values 0..6, up to 5 v
         "2*min(less,greater) between the code's own three answers). NOT decided by this technique: the clauses about the "
         "continuous distribution functions (Student-t / normal CDF monotone, in [0,1], reflection, agreement with numerical "
         "integration, inverse; incomplete-beta symmetry and convergence for real degrees of freedom) - TLA+/TLC has no reals; "
-        "they are only probed by auxiliary harness-side relational checks, flagged auxiliary and never the ground of the claim.")
+        "they are only probed by auxiliary harness-side relational checks, flagged auxiliary and never the ground of the claim. "
+        "LARGE SAMPLES (2..130 every size, some up to 700 values; full mantissas, integers, widely varying magnitude, many ties, constant; "
+        "sorted-marked or not): the same textbook definitions are evaluated by the harness in exact rationals (math/big) and compared "
+        "with internal/stats; every t-test p-value (small and large samples) is compared with the upper tail of Student's t by an "
+        "independent quadrature of the density; each sample lives in one array that is queried repeatedly (history), the "
+        "order-sensitive paired test before and after the queries.")
 NOTE = ("Level 'other': a model-checked core (exact rational statistics of small integer samples, exhaustive within the stated "
         "bounds, bound to the code by replay) plus auxiliary numeric probes. The distribution-function clauses of the statement "
-        "are outside this technique (DESIGN.md section 6) and are not claimed; sample sizes beyond 6, values of widely varying "
-        "magnitude and weighted samples are not covered (the harness only applies exact affine maps 2^k (x + a) to the "
-        "enumerated samples). Trusted: TLC, the float-vs-rational comparison, math.Pow/Ldexp in the geometric-mean comparison.")
+        "are outside this technique (DESIGN.md section 6) and are not claimed; beyond the model's bounds (more than 6 values, values of "
+        "widely varying magnitude) the expected values come from the harness's exact-rational evaluation of the same definitions "
+        "(kind 'big'), not from TLC; weighted samples are not covered. Trusted: TLC, math/big, the float-vs-rational comparison, "
+        "math.Pow/Ldexp in the geometric-mean comparison, math.Lgamma and the tanh-sinh quadrature of the t density (checked against "
+        "the finite series of Abramowitz & Stegun 26.7.3/4 to 2e-13).")
 TECHNIQUE = ("TLA+ model checking (TLC) of textbook definitions vs transcribed algorithms on exact rationals + exhaustive replay "
              "of the generated samples into internal/stats; auxiliary relational probes for the distribution functions")
 DESIGN_REF = "DESIGN.md section 4 C12, section 6"
@@ -35,7 +42,14 @@ RULE = ("(M) exhaustive TLC run of Stats.tla: every sequence over 0..6 of length
         "seed-chosen exact affine map, through Sample.{Mean,Variance,StdDev,Bounds,Percentile,IQR,GeoMean}, Mean, Variance, StdDev, "
         "Bounds, GeoMean, OneSampleTTest; tt/pd cases through TwoSampleWelchTTest, TwoSampleTTest, PairedTTest with the three "
         "alternatives. distinct_nontrivial = desc multisets with at least two distinct values + tt pairs where Welch or pooled "
-        "returns a statistic + pd multisets with a statistic. Auxiliary probes are counted separately.")
+        "returns a statistic + pd multisets with a statistic. Auxiliary probes are counted separately. "
+        "(B) kind 'big' (harness oracle in exact rationals, sizes beyond TLC's integers): every n in 2..130 and 150, 200, 256, 300, 400, 512, 700 "
+        "as n+n and as a lopsided pair, shapes unit / int / wide / ties (quick: half of them above n = 40), single values and constant "
+        "samples; mean, variance, bounds, R8 percentiles at 30 levels incl. the clamping boundaries, IQR at 1e-12 of the data's scale; "
+        "one-sample (3 hypothesised means), Welch, pooled, paired t^2 / sign / degrees of freedom at 1e-9 (plus the conditioning of the "
+        "difference of means); every p-value of every t-test against Student's t upper tail by quadrature at 1e-9 relative; "
+        "history: tt cases and big cases re-run the paired / Welch / pooled tests on the same arrays after "
+        "Mean/Variance/Bounds/Percentile/IQR/StdDev were asked of them (signature suffix /after-queries).")
 
 EXPLANATION = ("Scope of this check: exact rational evaluation, in TLA+, of mean, variance (n-1), bounds, R8 percentiles on the grid "
                "p = j/12, IQR, geometric mean of powers of two, and of the Welch / pooled / paired / one-sample t statistics (t^2, sign, "
@@ -161,10 +175,13 @@ def run(ctx):
     ctx.cov["desc_orders_run"] = orders
     ctx.cov["two_sample_pairs"] = counts["tt"]
     ctx.cov["paired_difference_multisets"] = counts["pd"]
+    ctx.cov["large_sample_cases"] = sum(1 for c in cases if c["kind"] == "big")
     ctx.cov["exhaustive"] = True
     ctx.cov["auxiliary"] = {
         "what": "harness-only relational probes of the clauses TLA+/TLC cannot express: TDist CDF in [0,1], monotone on a grid, "
                 "F(-x)+F(x)=1, F(0)=1/2, agreement with Simpson integration of the density (1e-8), generic InvCDF(CDF(x)) = x (1e-6), "
+                "and, far out in both tails, InvCDF(CDF(x)) within x(1 -+ d) on a ladder x = m 2^k (every doubling) as long as the "
+                "distribution function separates x(1-d), x, x(1+d) by 1e-13, "
                 "for degrees of freedom on a fixed grid 1..1e5 (incl. non-integers) and log-uniform random ones; NormalDist the same "
                 "plus InvCDF(CDF(x)) = x (1e-8 sigma) and InvCDF(0), InvCDF(1/2), InvCDF(1); regularized incomplete beta "
                 "I_x(a,b)+I_(1-x)(b,a)=1 (1e-9), in [0,1], monotone in x, no panic / non-termination for a = dof/2 up to 5e4 "
